@@ -52,7 +52,7 @@ type BeaconState struct {
 	NextWithdrawalIndex          common.WithdrawalIndex `json:"next_withdrawal_index" yaml:"next_withdrawal_index"`
 	NextWithdrawalValidatorIndex common.ValidatorIndex  `json:"next_withdrawal_validator_index" yaml:"next_withdrawal_validator_index"`
 	// Deep history valid from Capella onwards
-	HistoricalSummaries capella.HistoricalSummaries `json:"historical_summaries"`
+	HistoricalSummaries capella.HistoricalSummaries `json:"historical_summaries" yaml:"historical_summaries"`
 }
 
 func (v *BeaconState) Deserialize(spec *common.Spec, dr *codec.DecodingReader) error {
